@@ -31,7 +31,9 @@ From RM Require Import Model.EncTimingSpec Proofs.ControlPointsFacts Proofs.EncT
 From RM Require Import Proofs.Enc2Values Proofs.Enc2Samples Proofs.Enc2Float Proofs.Enc2Timing Proofs.Enc2Slider Proofs.Enc2Examples.
 From RM Require Proofs.Enc2SvReal.
 From RM Require Import Proofs.Enc2SvRT Proofs.Enc2Framing Proofs.Enc2SampleShape.
-From RM Require Import Proofs.Enc3Framing Proofs.Enc3Timing Proofs.Enc3Nodes Proofs.Enc3Objects Proofs.Enc3Map Proofs.Enc3Example.
+From RM Require Import Proofs.Enc3Framing Proofs.Enc3Timing Proofs.Enc3Nodes Proofs.Enc3Objects Proofs.Enc3Chrono Proofs.Enc3Map Proofs.Enc3Example.
+From RM Require Import Proofs.MapLevelFacts.
+From Coq Require Sorting.Sorted.
 From Coq Require Reals.
 From RM Require Model.Curve.
 From RM Require Import Model.DrvEnc Proofs.EncMapImage.
@@ -1102,6 +1104,52 @@ Theorem C02_round_trip_decoded_map :
 Proof. exact round_trip_decoded_map. Qed.
 Print Assumptions C02_round_trip_decoded_map.
 
+(* [combo_chain] is a FACT about every decoded map whose accepted hit-object lines were in
+   chronological order, the hypothesis of the property.  [raw_objects lines]: the object list the line
+   parsers have built when the last line has been read (file order, before the stable sort). *)
+Theorem C02_combo_chain_of_chronological_input :
+  forall dist lines m,
+  decode_beatmap dist lines = Done m ->
+  Sorted.StronglySorted Z.le (map start_key (raw_objects lines)) ->
+  combo_chain (ev_breaks (hov_events (bmv_ho m))) true (hov_hit_objects (bmv_ho m)) = true.
+Proof. exact decoded_combo_chain. Qed.
+Print Assumptions C02_combo_chain_of_chronological_input.
+
+(* the top-level statement with the property's own hypothesis -- chronological hit-object lines --
+   and otherwise the recorded classes only *)
+Theorem C02_round_trip_chronological :
+  forall lm fmt_f64 fmt_f32 fmt_int,
+  fmt_ok fmt_f64 fmt_f32 fmt_int -> no_leading_zero fmt_int -> fmt_f32_int fmt_f32 fmt_int ->
+  forall events lines m c ls dist2 m2,
+  Forall no_lf_line lines -> decode_beatmap (dist_real lm) lines = Done m -> d23_class m = false ->
+  Sorted.StronglySorted Z.le (map start_key (raw_objects lines)) ->
+  enc_control_points (dist_real lm) events m = Done c ->
+  rt_classes (g_mode (hov_general (bmv_ho m))) c = true ->
+  Forall (obj_classes lm (g_mode (hov_general (bmv_ho m)))) (hov_hit_objects (bmv_ho m)) ->
+  encode_lines (dist_real lm) events m = Done ls ->
+  decode_beatmap dist2 (map (render fmt_f64 fmt_f32 fmt_int) ls) = Done m2 ->
+  let c0 := hov_control_points (bmv_ho m) in
+  let c2 := hov_control_points (bmv_ho m2) in
+  (bmv_version m2 = bmv_version m /\
+   hov_general (bmv_ho m2) = hov_general (bmv_ho (read_back m)) /\
+   bmv_editor m2 = bmv_editor (read_back m) /\
+   bmv_metadata m2 = bmv_metadata (read_back m) /\
+   hov_difficulty (bmv_ho m2) = hov_difficulty (bmv_ho (read_back m)) /\
+   hov_events (bmv_ho m2) = hov_events (bmv_ho (read_back m)) /\
+   bmv_colors m2 = bmv_colors (read_back m)) /\
+  (cp_timing c2 = cp_timing c0 /\
+   (forall t, sv_at c2 t = sv_at c0 t) /\
+   (forall t, kiai_at c2 t = kiai_at c0 t) /\
+   (forall t, scroll_at c2 t = scroll_at c0 t)) /\
+  Forall2 (final_rel lm) (hov_hit_objects (bmv_ho m)) (hov_hit_objects (bmv_ho m2)).
+Proof. exact round_trip_chronological. Qed.
+Print Assumptions C02_round_trip_chronological.
+
+Example C02_example_is_chronological :
+  sortedb (map start_key (raw_objects (lines_of_text all_kinds_text))) = true /\
+  (forall l, sortedb l = true -> Sorted.StronglySorted Z.le l).
+Proof. exact (conj all_kinds_chronological sortedb_sorted). Qed.
+
 (* non-vacuity: the hypotheses are satisfiable by a concrete decoded map with a circle, a slider,
    a spinner and a hold (plus a break and an inherited timing line), real curve and slider-event
    models: it is outside every class ... *)
@@ -1163,8 +1211,9 @@ Proof. exact all_kinds_round_trip. Qed.
 
 (* ---------- status of the obligations ----------
 
-   TOP LEVEL  C02_round_trip_decoded_map: ONE statement for a decoded map outside the recorded
-     classes -- simple sections (T02a), timing points and the three timelines (T02d), hit objects one
+   TOP LEVEL  C02_round_trip_decoded_map (and C02_round_trip_chronological, with "the accepted
+     hit-object lines are chronological" in place of [combo_chain]): ONE statement for a decoded map
+     outside the recorded classes -- simple sections (T02a), timing points and the three timelines (T02d), hit objects one
      to one in [final_rel] (T02b / T02e) -- about decoding `map render (encode_lines m)`, i.e. the
      per-section results pushed through the framing theorem (C05) and the Beatmap decoder's
      delegation (C07): C02_decode_of_encoding_simple_sections, C02_decode_of_encoding_timing,
@@ -1180,10 +1229,10 @@ Proof. exact all_kinds_round_trip. Qed.
      exclude D26 and D33), and COMPOSED over the whole [HitObjects] section and the map-level
      processing of the second decode (C02_hit_object_lines_reread, C02_decode_of_encoding_hit_objects:
      the stable sort is the identity on the sorted written list, the parser and the break
-     post-processing re-derive new-combo flags that are set -- [combo_chain], which holds when the
-     hit-object lines of the input were chronological, the property's hypothesis; NOT proved here
-     from the chronology of the input lines, it is a hypothesis on the decoded map --,
-     SamplePoint::apply touches only what carry_object erases).
+     post-processing re-derive new-combo flags that are set -- [combo_chain], PROVED of every
+     decoded map whose accepted hit-object lines were chronological, the property's hypothesis:
+     C02_combo_chain_of_chronological_input, C02_round_trip_chronological --, SamplePoint::apply
+     touches only what carry_object erases).
      The time condition fl(fl(start + d) - start) = d is FALSE in general: C02_times_ok_refuted,
      known finding D33 (confirmed on the crate).  PROVED for every pair of accepted times whose
      difference is a binary64 number (C02_times_ok_exact_difference; binary grids: C02_times_ok_grid,
